@@ -365,3 +365,66 @@ HARNESSES = [
                   last_nl=True) for c1 in ('name', 'number', 'symbol')
              for c2 in ('name', 'symbol')]),
 ]
+
+
+# --- CLI wiring --------------------------------------------------------------------
+def cli(x, p):
+    """tool.luamin / build --lua-minify hand the token minifier and the
+    name options to the cart writer."""
+    import argparse
+    import builtins
+    from pico8 import tool
+    from pico8.game import file as gfile
+    from pico8.game.game import Game
+    src = b'-- t\nfoo=bar - -baz\nif (foo) qux=1 ..foo\nt[ [[k]] ]=foo\n'
+    g = Game.make_empty_game(filename='x.p8')
+    g.lua = lua.Lua.from_lines([src], version=8)
+    keep_all = x.bool('keep_all')
+    keep_file = x.choice('keep_file', [None, '/w/keep.txt'])
+    captured = []
+    hx.patch(x, gfile, 'to_file', lambda game, **kw: captured.append(kw))
+    hx.patch(x, builtins, 'open',
+             lambda name, mode='r', *a, **k: hx.MemStream(b'bar\n# c\n\nqux \n'))
+    args = argparse.Namespace(keep_all_names=keep_all,
+                              keep_names_from_file=keep_file)
+    tool.luamin(g, 'out.p8', args=args)
+    x.check('luamin writes the cart once', len(captured) == 1)
+    if len(captured) != 1:
+        return
+    kw = captured[0]
+    x.check('luamin is wired to the token minifier',
+            kw.get('lua_writer_cls') is lua.LuaMinifyTokenWriter)
+    out = b''.join(g.lua.to_lines(writer_cls=kw.get('lua_writer_cls'),
+                                  writer_args=kw.get('lua_writer_args')))
+    x.out('out', out)
+    lx = lexer.Lexer(version=8)
+    lx.process_lines([out])
+    sig_in = [t for t in g.lua.tokens if not isinstance(
+        t, (lexer.TokSpace, lexer.TokNewline, lexer.TokComment))]
+    sig_out = [t for t in lx.tokens if not isinstance(
+        t, (lexer.TokSpace, lexer.TokNewline, lexer.TokComment))]
+    x.check('same number of code tokens', len(sig_in) == len(sig_out))
+    if len(sig_in) != len(sig_out):
+        return
+    mapping = {}
+    for a, b in zip(sig_in, sig_out):
+        x.check('token kind kept', type(a) is type(b))
+        if isinstance(a, lexer.TokName):
+            kept = keep_all or a.code == b't' or (
+                keep_file is not None and a.code in (b'bar', b'qux'))
+            if kept:
+                x.check('names that must be kept are kept', b.code == a.code)
+            mapping.setdefault(a.code, b.code)
+            x.check('one input name, one output name',
+                    mapping[a.code] == b.code)
+        elif not isinstance(a, lexer.TokString):
+            x.check('spelling kept', a.code == b.code)
+    x.check('renaming is injective',
+            len(set(mapping.values())) == len(mapping))
+    l2 = lua.Lua(version=8)
+    l2._lexer._tokens = list(lx.tokens)
+    x.check('token count reported by stats is unchanged',
+            l2.get_token_count() == g.lua.get_token_count())
+
+
+HARNESSES.append(Harness('cli', cli, quick=[Q]))
